@@ -208,26 +208,16 @@ def misc_cov(chk, repo, d, eq):
     # boundary values
     ms = repo.by_path('TidalPy/RadialSolver/solver.pyx')
     f = need_func(ms, 'cf_radial_solver')
-    node = find_if(f, lambda n: ast.unparse(n.test) == 'solve_for is None')
+    # boundary values by prefix interpretation of cf_radial_solver (independent of local names / helper extraction); the symbols carry their units
     D = S.Dims()
-    l = X.atom('l', 'pos'); R = D.atom('R_planet', 'pos', m=1); rho = D.atom('rho_bulk', 'pos', kg=1, m=-3)
-    # other locals of the solver the fragment may read: free atoms carrying the unit their name stands for in cf_radial_solver
-    KNOWN_UNITS = {'surface_gravity': S.ACCEL, 'G_to_use': S.GRAV_G, 'radius_planet': S.LENGTH, 'planet_bulk_density': S.DENSITY, 'frequency_to_use': S.FREQ, 'frequency': S.FREQ}
-    from .common import local_atoms_hook
-    base_hook = local_atoms_hook(ms, f)
-
-    def units_hook(itp, m, nm):
-        v = base_hook(itp, m, nm)
-        if v is not None:
-            D.d[v.val] = KNOWN_UNITS.get(nm, {})
-        return v
-    it = Interp(repo, hooks={'global': units_hook})
-    fr = Frame(ms, 'cf_radial_solver'); bc = Arr('bc')
-    fr.vars.update({'solve_for': ('tidal', 'loading', 'free'), 'bc_pointer': bc, 'degree_l_dbl': l, 'radius_planet_to_use': R, 'bulk_density_to_use': rho, 'max_num_solutions': 5, 'num_ytypes': 1})
-    it.exec(node, fr)
+    vals, frp, sym = SM.solver_bc_table(repo, ('tidal', 'loading', 'free'), False)
+    D.d[sym['R'].val] = S.LENGTH; D.d[sym['rho_bulk'].val] = S.DENSITY; D.d[sym['w'].val] = S.FREQ; D.d[('Gconst', 'pos')] = S.GRAV_G
+    for nm_, dm_ in (('radius', S.LENGTH), ('density', S.DENSITY), ('gravity', S.ACCEL), ('bulk', S.PRESSURE), ('shear', S.PRESSURE)):
+        for i_ in range(8):
+            D.d[(f'{nm_}{i_}', 'complex' if nm_ == 'shear' else 'pos')] = dm_
     comp = ('y2', 'y4', 'y6')
-    bad = [k for k, v in bc.store.items() if not d.equal(D.scaled(v), S.factor(S.YDIM[comp[k % 3]]) * v)]
-    chk.ob('R03.2', 'surface boundary values carry the units of (y2, y4, y6) for tidal, loading and free conditions', not bad, f'slots {bad}', ms.where(node), method='scaling covariance')
+    bad = [k for k, v in enumerate(vals) if not d.equal(D.scaled(v), S.factor(S.YDIM[comp[k % 3]]) * v)]
+    chk.ob('R03.2', 'surface boundary values carry the units of (y2, y4, y6) for tidal, loading and free conditions', not bad, f'slots {bad}', ms.where(f), method='prefix interpretation + scaling covariance')
     # static-liquid surface right-hand side
     mb = repo.by_path('TidalPy/RadialSolver/boundaries/boundaries.pyx')
     fb = need_func(mb, 'cf_apply_surface_bc')
@@ -321,23 +311,26 @@ def layout(chk, repo, d, eq):
     # writer: collapse
     mc = repo.by_path('TidalPy/RadialSolver/collapse/collapse.pyx')
     fc = need_func(mc, 'cf_collapse_layer_solution')
-    stores = [n for n in ast.walk(fc) if isinstance(n, (ast.Assign, ast.AugAssign)) and isinstance((n.targets[0] if isinstance(n, ast.Assign) else n.target), ast.Subscript)
-              and ast.unparse((n.targets[0] if isinstance(n, ast.Assign) else n.target).value) == 'solution_ptr']
-    fr = Frame(mc, 'cf_collapse_layer_solution')
-    fr.vars.update({'slice_i_shifted': Sx, 'num_output_ys': 6 * N, 'ytype_i': T, 'max_num_y': 6, 'y_i': k, 'lhs_y_index': T * 6 + k})
-    lhs_def = [n for n in ast.walk(fc) if isinstance(n, ast.Assign) and ast.unparse(n.targets[0]) == 'lhs_y_index']
-    ok_lhs = any(d.equal(it.eval(n.value, fr), T * 6 + k) for n in lhs_def) if lhs_def else False
-    okw = bool(stores) and ok_lhs
-    for st in stores:
-        tgt = st.targets[0] if isinstance(st, ast.Assign) else st.target
-        idx = it.eval(tgt.slice, fr)
-        # the y3 store uses (lhs_y_index + 2) with lhs_y_index = ytype*max_num_y
-        if '+ 2' in ast.unparse(tgt.slice) or '+2' in ast.unparse(tgt.slice):
-            fr2 = Frame(mc, 'c'); fr2.vars.update(fr.vars); fr2.vars['lhs_y_index'] = T * 6
-            okw = okw and d.equal(it.eval(tgt.slice, fr2), Sx * (6 * N) + T * 6 + 2)
-        else:
-            okw = okw and d.equal(idx, canonical)
-    chk.ob('R03.3', 'writer (collapse): element (slice, type, y) is stored at slice*(6*num_ytypes) + type*6 + y', okw, 'index expression differs', mc.where(fc), method='index polynomial identity')
+    # decided by interpretation (independent of how the function names its index variables): with 2 solution types in the buffer, the collapse of type t writes
+    # exactly the elements slice*(6*2) + t*6 + y of its slices
+    okw = True; whyw = ''
+    for (kind_, static_) in (('solid', False), ('liquid', False), ('liquid', True)):
+        layk = ts72.LAYOUT[(kind_, static_)]; nys_ = len(layk); nsol_ = ts72.NUM_SOLS[(kind_, static_)]
+        for t_ in (0, 1):
+            sols_ = [Arr(f'sol{s_}', default=lambda k_, s_=s_: X.atom(f'w{s_}_{k_}', 'complex')) for s_ in range(nsol_)]
+            outw = Arr('solution')
+            Interp(repo).call(mc, fc, [outw, Arr('c', default=lambda k_: X.atom(f'C{k_}', 'complex')), Arr('storage', default=lambda k_: sols_[k_]),
+                                       Arr('r', default=lambda k_: X.atom(f'r{k_}', 'pos')), Arr('rho', default=lambda k_: X.atom(f'rho{k_}', 'pos')), Arr('g', default=lambda k_: X.atom(f'g{k_}', 'pos')),
+                                       X.atom('w', 'pos'), 0, 3, nsol_, 6, nys_, 12, t_, 0 if kind_ == 'solid' else 1, static_, False])
+            written = sorted(k_ for k_, v_ in outw.store.items())
+            allowed = {sl_ * 12 + t_ * 6 + j_ for sl_ in range(3) for j_ in range(6)}
+            carried = {sl_ * 12 + t_ * 6 + j_ for sl_ in range(3) for j_, nm_ in enumerate(('y1', 'y2', 'y3', 'y4', 'y5', 'y6')) if nm_ in layk}
+            numeric = {k_ for k_, v_ in outw.store.items() if isinstance(v_, X.Node)}
+            if not set(written) <= allowed or not carried <= numeric:
+                okw = False
+                whyw += f'{kind_}{" static" if static_ else ""}, type {t_}: writes {sorted(set(written) - allowed)[:4]} outside its block, misses {sorted(carried - numeric)[:4]}; '
+    chk.ob('R03.3', 'writer (collapse): element (slice, type, y) is stored at slice*(6*num_ytypes) + type*6 + y, nothing outside the block of its solution type', okw, whyw, mc.where(fc),
+           method='interpretation on a 3-slice, 2-type buffer')
     # solver passes num_output_ys = MAX_NUM_Y * num_ytypes
     nout = [n for n in ast.walk(f) if isinstance(n, ast.Assign) and ast.unparse(n.targets[0]) == 'num_output_ys']
     frs = Frame(ms, 'cf_radial_solver'); frs.vars.update({'num_ytypes': N})
@@ -426,17 +419,13 @@ def reciprocity(chk, repo, d):
     # (c) surface: boundary vectors from the solver's table, Love numbers from find_love_cf
     ms = repo.by_path('TidalPy/RadialSolver/solver.pyx')
     f = need_func(ms, 'cf_radial_solver')
-    node = find_if(f, lambda n_: ast.unparse(n_.test) == 'solve_for is None')
-    if node is None:
-        raise AnalysisError('cf_radial_solver: boundary-condition table not found')
-    from .common import local_atoms_hook
-    R = X.atom('R_planet', 'pos'); rb = X.atom('rho_bulk', 'pos'); ld = X.atom('l', 'pos')
-    itb = Interp(repo, hooks={'global': local_atoms_hook(ms, f)})
-    fr = Frame(ms, 'cf_radial_solver'); bc = Arr('bc')
-    fr.vars.update({'solve_for': ('tidal', 'loading'), 'bc_pointer': bc, 'degree_l_dbl': ld, 'radius_planet_to_use': R, 'bulk_density_to_use': rb, 'max_num_solutions': 5, 'num_ytypes': 1})
-    itb.exec(node, fr)
-    if sorted(bc.store) != list(range(6)):
-        raise AnalysisError('cf_radial_solver: boundary table did not produce two condition vectors')
+    bcvals, frp, sym = SM.solver_bc_table(repo, ('tidal', 'loading'), False)
+    R = sym['R']; rb = sym['rho_bulk']; ld = sym['l']
+
+    class _BC:          # the six values, addressed like the former fragment's store map
+        store = dict(enumerate(bcvals))
+    bc = _BC
+    node = f
     ml = repo.by_path('TidalPy/RadialSolver/love.pyx'); fl = need_func(ml, 'find_love_cf')
     gs = X.atom('g_surface', 'pos')
 
